@@ -286,12 +286,15 @@ def rule_S5(ctx):
                             body = lst[lst.index(n) + 1:]
                     norm = []
                     for s in body or []:
-                        txt = unparse(s)
+                        # alpha-normalised text: local names (incl. the tags the inlining
+                        # pass appends) do not matter, only the shape of the normalisation
                         if isinstance(s, ast.If) and var in unparse(s.test) and "isinstance" in unparse(s.test):
-                            norm.append(txt.replace(var, "<DO>"))
+                            norm.append(norm_src(s) + " : " + " ; ".join(
+                                norm_src(b) for b in s.body) + (" else " + " ; ".join(
+                                    norm_src(b) for b in s.orelse) if s.orelse else ""))
                         elif isinstance(s, ast.Assign) and any(
                                 isinstance(t, ast.Name) and t.id == var for t in s.targets):
-                            norm.append(txt.replace(var, "<DO>"))
+                            norm.append(norm_src(s))
                     forms[m.qualname] = tuple(" ".join(x.split()) for x in norm)
     if len(forms) < 3:
         raise AnalysisError("fewer than three readers of 'do' in TaskMappingSpec (%d)" % len(forms))
